@@ -137,13 +137,13 @@ package processors
 //@ assigns anyfield(component_definition.Property, Injects), MetasPos, PosSnap, Failed
 //@ ensures [no-error] result1 == nil
 //@ ensures [by-name-candidate] forall(k, int, implies(0 <= k && k < len(properties) && ByName(properties[k]), len(properties[k].Injects) == len(old(properties[k].Injects)) + 1 && properties[k].Injects[len(properties[k].Injects) - 1] == ite(d.Registry.DefDom[properties[k].TagVal] && RAssignable(RTypeOf(d.Registry.Def[properties[k].TagVal].Value), properties[k].Type), d.Registry.Def[properties[k].TagVal], nil)), properties[k])
-//@ ensures [by-type-sound] forall(k, int, forall(i, int, implies(0 <= k && k < len(properties) && (ByPtrType(properties[k]) || ByIfaceType(properties[k])) && len(old(properties[k].Injects)) <= i && i < len(properties[k].Injects), MetaOK(properties[k].Injects[i]) && d.Registry.DefDom[properties[k].Injects[i].Name()] && d.Registry.Def[properties[k].Injects[i].Name()] == properties[k].Injects[i] && ite(ByPtrType(properties[k]), RTypeOf(properties[k].Injects[i].Value) == TargetT(properties[k]), RImplements(RTypeOf(properties[k].Injects[i].Value), TargetT(properties[k]))))))
+//@ ensures [by-type-sound] forall(k, int, forall(i, int, implies(0 <= k && k < len(properties) && (ByPtrType(properties[k]) || ByIfaceType(properties[k])) && len(old(properties[k].Injects)) <= i && i < len(properties[k].Injects), MetaOK(properties[k].Injects[i]) && d.Registry.DefDom[properties[k].Injects[i].Name()] && d.Registry.Def[properties[k].Injects[i].Name()] == properties[k].Injects[i] && ite(ByPtrType(properties[k]), RTypeOf(properties[k].Injects[i].Value) == TargetT(properties[k]), RImplements(RTypeOf(properties[k].Injects[i].Value), TargetT(properties[k])))), properties[k].Injects[i]), properties[k])
 //@ ensures [by-type-complete] forall(k, int, forall(n, string, implies(0 <= k && k < len(properties) && (ByPtrType(properties[k]) || ByIfaceType(properties[k])) && d.Registry.DefDom[n] && ite(ByPtrType(properties[k]), RTypeOf(d.Registry.Def[n].Value) == TargetT(properties[k]), RImplements(RTypeOf(d.Registry.Def[n].Value), TargetT(properties[k]))), 0 <= PosSnap[k][n] && len(old(properties[k].Injects)) + PosSnap[k][n] < len(properties[k].Injects) && properties[k].Injects[len(old(properties[k].Injects)) + PosSnap[k][n]] == d.Registry.Def[n])))
 //@ ensures [candidates-assignable] forall(k, int, forall(i, int, implies(0 <= k && k < len(properties) && Wire(properties[k]) && len(old(properties[k].Injects)) <= i && i < len(properties[k].Injects) && properties[k].Injects[i] != nil, RAssignable(RTypeOf(properties[k].Injects[i].Value), TargetT(properties[k])))))
 //@ ensures [earlier-candidates-kept] forall(k, int, forall(i, int, implies(0 <= k && k < len(properties) && 0 <= i && i < len(old(properties[k].Injects)), len(properties[k].Injects) >= len(old(properties[k].Injects)) && properties[k].Injects[i] == oldat(old(properties[k].Injects), i))))
 //@ ensures [others-untouched] forall(k, int, implies(0 <= k && k < len(properties) && !ByName(properties[k]) && !ByPtrType(properties[k]) && !ByIfaceType(properties[k]), properties[k].Injects == old(properties[k].Injects)), properties[k]) && forall(p, *component_definition.Property, implies(forall(k, int, implies(0 <= k && k < len(properties), properties[k] != p)), p.Injects == old(p.Injects)))
 //@ loop 1 invariant [by-name-candidate] forall(k, int, implies(0 <= k && k < _done && ByName(properties[k]), len(properties[k].Injects) == len(old(properties[k].Injects)) + 1 && properties[k].Injects[len(properties[k].Injects) - 1] == ite(d.Registry.DefDom[properties[k].TagVal] && RAssignable(RTypeOf(d.Registry.Def[properties[k].TagVal].Value), properties[k].Type), d.Registry.Def[properties[k].TagVal], nil)), properties[k])
-//@ loop 1 invariant [by-type-sound] forall(k, int, forall(i, int, implies(0 <= k && k < _done && (ByPtrType(properties[k]) || ByIfaceType(properties[k])) && len(old(properties[k].Injects)) <= i && i < len(properties[k].Injects), MetaOK(properties[k].Injects[i]) && d.Registry.DefDom[properties[k].Injects[i].Name()] && d.Registry.Def[properties[k].Injects[i].Name()] == properties[k].Injects[i] && ite(ByPtrType(properties[k]), RTypeOf(properties[k].Injects[i].Value) == TargetT(properties[k]), RImplements(RTypeOf(properties[k].Injects[i].Value), TargetT(properties[k]))))))
+//@ loop 1 invariant [by-type-sound] forall(k, int, forall(i, int, implies(0 <= k && k < _done && (ByPtrType(properties[k]) || ByIfaceType(properties[k])) && len(old(properties[k].Injects)) <= i && i < len(properties[k].Injects), MetaOK(properties[k].Injects[i]) && d.Registry.DefDom[properties[k].Injects[i].Name()] && d.Registry.Def[properties[k].Injects[i].Name()] == properties[k].Injects[i] && ite(ByPtrType(properties[k]), RTypeOf(properties[k].Injects[i].Value) == TargetT(properties[k]), RImplements(RTypeOf(properties[k].Injects[i].Value), TargetT(properties[k])))), properties[k].Injects[i]), properties[k])
 //@ loop 1 invariant [by-type-complete] forall(k, int, forall(n, string, implies(0 <= k && k < _done && (ByPtrType(properties[k]) || ByIfaceType(properties[k])) && d.Registry.DefDom[n] && ite(ByPtrType(properties[k]), RTypeOf(d.Registry.Def[n].Value) == TargetT(properties[k]), RImplements(RTypeOf(d.Registry.Def[n].Value), TargetT(properties[k]))), 0 <= PosSnap[k][n] && len(old(properties[k].Injects)) + PosSnap[k][n] < len(properties[k].Injects) && properties[k].Injects[len(old(properties[k].Injects)) + PosSnap[k][n]] == d.Registry.Def[n])))
 //@ loop 1 invariant [candidates-assignable] forall(k, int, forall(i, int, implies(0 <= k && k < _done && Wire(properties[k]) && len(old(properties[k].Injects)) <= i && i < len(properties[k].Injects) && properties[k].Injects[i] != nil, RAssignable(RTypeOf(properties[k].Injects[i].Value), TargetT(properties[k])))))
 //@ loop 1 invariant [earlier-candidates-kept] forall(k, int, forall(i, int, implies(0 <= k && k < _done && 0 <= i && i < len(old(properties[k].Injects)), len(properties[k].Injects) >= len(old(properties[k].Injects)) && properties[k].Injects[i] == oldat(old(properties[k].Injects), i))))
@@ -166,12 +166,12 @@ package processors
 //@ requires [properties-distinct] forall(j, int, forall(k, int, implies(0 <= j && j < k && k < len(properties), properties[j] != properties[k])))
 //@ assigns anyfield(component_definition.Property, Injects), MetasPos, Failed
 //@ ensures [no-error] result1 == nil
-//@ ensures [func-candidates-sound] forall(k, int, forall(i, int, implies(0 <= k && k < len(properties) && (FuncByPtr(properties[k]) || FuncByIface(properties[k])) && len(old(properties[k].Injects)) <= i && i < len(properties[k].Injects), MetaOK(properties[k].Injects[i]) && d.Registry.DefDom[properties[k].Injects[i].Name()] && d.Registry.Def[properties[k].Injects[i].Name()] == properties[k].Injects[i] && RHasMethod(RTypeOf(properties[k].Injects[i].Value), properties[k].TagVal) && ite(FuncByPtr(properties[k]), RTypeOf(properties[k].Injects[i].Value) == TargetT(properties[k]), RImplements(RTypeOf(properties[k].Injects[i].Value), TargetT(properties[k]))))))
+//@ ensures [func-candidates-sound] forall(k, int, forall(i, int, implies(0 <= k && k < len(properties) && (FuncByPtr(properties[k]) || FuncByIface(properties[k])) && len(old(properties[k].Injects)) <= i && i < len(properties[k].Injects), MetaOK(properties[k].Injects[i]) && d.Registry.DefDom[properties[k].Injects[i].Name()] && d.Registry.Def[properties[k].Injects[i].Name()] == properties[k].Injects[i] && RHasMethod(RTypeOf(properties[k].Injects[i].Value), properties[k].TagVal) && ite(FuncByPtr(properties[k]), RTypeOf(properties[k].Injects[i].Value) == TargetT(properties[k]), RImplements(RTypeOf(properties[k].Injects[i].Value), TargetT(properties[k])))), properties[k].Injects[i]), properties[k])
 //@ ensures [earlier-candidates-kept] forall(k, int, forall(i, int, implies(0 <= k && k < len(properties) && 0 <= i && i < len(old(properties[k].Injects)), len(properties[k].Injects) >= len(old(properties[k].Injects)) && properties[k].Injects[i] == oldat(old(properties[k].Injects), i))))
 //@ ensures [others-untouched] forall(k, int, implies(0 <= k && k < len(properties) && !FuncByPtr(properties[k]) && !FuncByIface(properties[k]), properties[k].Injects == old(properties[k].Injects)), properties[k]) && forall(p, *component_definition.Property, implies(forall(k, int, implies(0 <= k && k < len(properties), properties[k] != p)), p.Injects == old(p.Injects)))
 //@ loop 1 invariant [bounds] 0 <= _done && _done <= len(properties) && DefInv(d.Registry)
 //@ loop 1 invariant [inputs-kept] forall(k, int, implies(0 <= k && k < len(properties), properties[k] == oldat(properties, k)))
-//@ loop 1 invariant [func-candidates-sound] forall(k, int, forall(i, int, implies(0 <= k && k < _done && (FuncByPtr(properties[k]) || FuncByIface(properties[k])) && len(old(properties[k].Injects)) <= i && i < len(properties[k].Injects), MetaOK(properties[k].Injects[i]) && d.Registry.DefDom[properties[k].Injects[i].Name()] && d.Registry.Def[properties[k].Injects[i].Name()] == properties[k].Injects[i] && RHasMethod(RTypeOf(properties[k].Injects[i].Value), properties[k].TagVal) && ite(FuncByPtr(properties[k]), RTypeOf(properties[k].Injects[i].Value) == TargetT(properties[k]), RImplements(RTypeOf(properties[k].Injects[i].Value), TargetT(properties[k]))))))
+//@ loop 1 invariant [func-candidates-sound] forall(k, int, forall(i, int, implies(0 <= k && k < _done && (FuncByPtr(properties[k]) || FuncByIface(properties[k])) && len(old(properties[k].Injects)) <= i && i < len(properties[k].Injects), MetaOK(properties[k].Injects[i]) && d.Registry.DefDom[properties[k].Injects[i].Name()] && d.Registry.Def[properties[k].Injects[i].Name()] == properties[k].Injects[i] && RHasMethod(RTypeOf(properties[k].Injects[i].Value), properties[k].TagVal) && ite(FuncByPtr(properties[k]), RTypeOf(properties[k].Injects[i].Value) == TargetT(properties[k]), RImplements(RTypeOf(properties[k].Injects[i].Value), TargetT(properties[k])))), properties[k].Injects[i]), properties[k])
 //@ loop 1 invariant [earlier-candidates-kept] forall(k, int, forall(i, int, implies(0 <= k && k < _done && 0 <= i && i < len(old(properties[k].Injects)), len(properties[k].Injects) >= len(old(properties[k].Injects)) && properties[k].Injects[i] == oldat(old(properties[k].Injects), i))))
 //@ loop 1 invariant [rest-untouched] forall(k, int, implies(_done <= k && k < len(properties), properties[k].Injects == old(properties[k].Injects)), properties[k])
 //@ loop 1 invariant [others-untouched] forall(k, int, implies(0 <= k && k < len(properties) && !FuncByPtr(properties[k]) && !FuncByIface(properties[k]), properties[k].Injects == old(properties[k].Injects)), properties[k]) && forall(p, *component_definition.Property, implies(forall(k, int, implies(0 <= k && k < len(properties), properties[k] != p)), p.Injects == old(p.Injects)))
@@ -270,9 +270,113 @@ package processors
 //@ requires [wired] c.el != nil && c.el.OK && c.Configure != nil
 //@ requires [properties-wellformed] forall(k, int, implies(0 <= k && k < len(properties), properties[k] != nil && properties[k].Configurations != nil), properties[k])
 //@ requires [properties-distinct] forall(j, int, forall(k, int, implies(0 <= j && j < k && k < len(properties), properties[j] != properties[k])))
-//@ assigns anyfield(component_definition.Property, TagVal), allmaps(map[string]any), Failed
+//@ assigns anyfield(component_definition.Property, TagVal), allmaps(map[string]any), ElLastInput, Failed
 //@ ensures [resolved-text-has-no-placeholder] implies(result1 == nil, forall(k, int, implies(0 <= k && k < len(properties) && RFirst(c.el.Pattern, properties[k].TagStr) != "", RFirst(c.el.Pattern, properties[k].TagVal) == ""), properties[k]))
 //@ ensures [tags-without-placeholder-untouched] forall(k, int, implies(0 <= k && k < len(properties) && RFirst(c.el.Pattern, properties[k].TagStr) == "", properties[k].TagVal == old(properties[k].TagVal)), properties[k])
 //@ loop 1 invariant [bounds] 0 <= _done && _done <= len(properties)
 //@ loop 1 invariant [resolved-so-far] forall(k, int, implies(0 <= k && k < _done && RFirst(c.el.Pattern, properties[k].TagStr) != "", RFirst(c.el.Pattern, properties[k].TagVal) == ""), properties[k])
 //@ loop 1 invariant [untouched-so-far] forall(k, int, implies(0 <= k && k < len(properties) && (k >= _done || RFirst(c.el.Pattern, properties[k].TagStr) == ""), properties[k].TagVal == old(properties[k].TagVal)), properties[k])
+
+// ---- stage order (C18): the order constants and marker interfaces of the built-in processors -----------------------
+// Each Order() is verified to return its constant; the engine turns "pure + implements + result == constant" into the
+// value of Ord(x) for receivers of that dynamic type. The lemmas below are then proved from the real declarations:
+// placeholder substitution < expression evaluation < binding (value / prefix) in the priority class, and validation
+// in the plain ordered class, which SortOrderedComponents puts after the whole priority class (C12).
+//@ func (*configQuoteAwarePostProcessors).Order
+//@ property C18
+//@ implements definition.Ordered
+//@ pure
+//@ assigns nothing
+//@ ensures [order-constant] result == PriorityOrderPropertyConfigQuoteAware
+//@ func (*expressionTagAwarePostProcessors).Order
+//@ property C18
+//@ implements definition.Ordered
+//@ pure
+//@ assigns nothing
+//@ ensures [order-constant] result == PriorityOrderPropertyExpressionTagAware
+//@ func (*propertiesAwarePostProcessors).Order
+//@ property C18
+//@ implements definition.Ordered
+//@ pure
+//@ assigns nothing
+//@ ensures [order-constant] result == PriorityOrderPopulateProperties
+//@ func (*valueAwarePostProcessors).Order
+//@ property C18
+//@ implements definition.Ordered
+//@ pure
+//@ assigns nothing
+//@ ensures [order-constant] result == PriorityOrderPopulateProperties
+//@ func (*validateAwarePostProcessors).Order
+//@ property C18
+//@ implements definition.Ordered
+//@ pure
+//@ assigns nothing
+//@ ensures [order-constant] result == OrderValidate
+//@ func (*loggerAwarePostProcessors).Order
+//@ property C18
+//@ implements definition.Ordered
+//@ pure
+//@ assigns nothing
+//@ ensures [order-constant] result == PriorityOrderLoggerAware
+//@ func (*dependencyAwarePostProcessors).Order
+//@ property C18
+//@ implements definition.Ordered
+//@ pure
+//@ assigns nothing
+//@ ensures [order-constant] result == OrderDependencyAware
+//@ func (*dependencyFunctionAwarePostProcessors).Order
+//@ property C18
+//@ implements definition.Ordered
+//@ pure
+//@ assigns nothing
+//@ ensures [order-constant] result == OrderDependencyAware
+//@ func (*dependencyFurtherMatchingPostProcessors).Order
+//@ property C18
+//@ implements definition.Ordered
+//@ pure
+//@ assigns nothing
+//@ ensures [order-constant] result == OrderDependencyFurtherMatching
+
+//@ lemma [placeholders-before-expressions] {C18} forall(p, any, forall(q, any, implies(typeIs(p, *configQuoteAwarePostProcessors) && typeIs(q, *expressionTagAwarePostProcessors), Cls(p) == 0 && Cls(q) == 0 && Ord(p) < Ord(q))))
+//@ lemma [expressions-before-binding] {C18} forall(p, any, forall(q, any, implies(typeIs(p, *expressionTagAwarePostProcessors) && (typeIs(q, *valueAwarePostProcessors) || typeIs(q, *propertiesAwarePostProcessors)), Cls(p) == 0 && Cls(q) == 0 && Ord(p) < Ord(q))))
+//@ lemma [binding-before-validation] {C18} forall(p, any, forall(q, any, implies((typeIs(p, *valueAwarePostProcessors) || typeIs(p, *propertiesAwarePostProcessors)) && typeIs(q, *validateAwarePostProcessors), Cls(p) == 0 && Cls(q) == 1)))
+
+// ---- expressions (C18): #{...} is replaced by the rendered result of evaluating it ---------------------------------
+//@ func (*expressionTagAwarePostProcessors).PostProcessProperties$1
+//@ property C18
+//@ assigns nothing
+//@ ensures [expression-result] implies(result1 == nil, result0 == FmtAny(ExprRun(ExprProg(exp))))
+
+//@ func (*expressionTagAwarePostProcessors).PostProcessProperties
+//@ property C18 C09
+//@ implements container.InstantiationAwareComponentPostProcessor
+//@ ghost at return: Failed = old(Failed) || result1 != nil
+//@ requires [wired] c.el != nil && c.el.OK
+//@ requires [properties-wellformed] forall(k, int, implies(0 <= k && k < len(properties), properties[k] != nil), properties[k])
+//@ requires [properties-distinct] forall(j, int, forall(k, int, implies(0 <= j && j < k && k < len(properties), properties[j] != properties[k])))
+//@ assigns anyfield(component_definition.Property, TagVal), allmaps(map[string]any), ElLastInput, Failed
+//@ ensures [no-expression-left] implies(result1 == nil, forall(k, int, implies(0 <= k && k < len(properties), RFirst(c.el.Pattern, properties[k].TagVal) == ""), properties[k]))
+//@ ensures [text-without-expression-untouched] forall(k, int, implies(0 <= k && k < len(properties) && RFirst(c.el.Pattern, old(properties[k].TagVal)) == "", properties[k].TagVal == old(properties[k].TagVal)), properties[k])
+//@ assert after call ReplaceAllContent: [evaluates-substituted-text] ElLastInput == prop.TagVal
+//@ loop 1 invariant [bounds] 0 <= _done && _done <= len(properties)
+//@ loop 1 invariant [evaluated-so-far] forall(k, int, implies(0 <= k && k < _done, RFirst(c.el.Pattern, properties[k].TagVal) == ""), properties[k])
+//@ loop 1 invariant [untouched-so-far] forall(k, int, implies(0 <= k && k < len(properties) && (k >= _done || RFirst(c.el.Pattern, old(properties[k].TagVal)) == ""), properties[k].TagVal == old(properties[k].TagVal)), properties[k])
+
+// ---- validation (C18): start-up fails exactly when the library reports a violation on a bound configuration value --
+//   VChecked(p): p is a configuration property carrying a validate argument that the processor looks at;
+//   VOk(p): the library's verdict for it (struct kinds through Struct, other kinds through Var with the joined tags).
+//   reflect.Kind: Pointer 22, Struct 25.
+//@ spec func VKindType(p *component_definition.Property) reflect.Type = ite(p.Type.Kind() == 22, p.Type.Elem(), p.Type)
+//@ spec func VChecked(p *component_definition.Property) bool = p.PropertyType == component_definition.PropertyTypeConfiguration && ArgIn(p.args, ArgValidate) && (VKindType(p).Kind() == 25 || RCanInterface(p.Value))
+//@ spec func VOk(p *component_definition.Property) bool = ite(VKindType(p).Kind() == 25, ValidStruct(RInterface(p.Value)), ValidVar(RInterface(p.Value), StrJoin(p.args[Fmt(ArgValidate)], ",")))
+
+//@ func (*validateAwarePostProcessors).PostProcessProperties
+//@ property C18 C09
+//@ implements container.InstantiationAwareComponentPostProcessor
+//@ ghost at return: Failed = old(Failed) || result1 != nil
+//@ requires [validator-built] c.v != nil
+//@ requires [properties-wellformed] forall(k, int, implies(0 <= k && k < len(properties), PointOK(properties[k]) && properties[k].args != nil && implies(properties[k].Type.Kind() == 22, properties[k].Type.Elem() != nil)), properties[k])
+//@ assigns Failed
+//@ ensures [fails-exactly-on-violation] (result1 == nil) == forall(k, int, implies(0 <= k && k < len(properties) && VChecked(properties[k]), VOk(properties[k])), properties[k])
+//@ loop 1 invariant [bounds] 0 <= _done && _done <= len(properties)
+//@ loop 1 invariant [valid-so-far] forall(k, int, implies(0 <= k && k < _done && VChecked(properties[k]), VOk(properties[k])), properties[k])
